@@ -21,6 +21,8 @@ CUSTOMS = [
     ({"C+0": 2, "?": 8}, {"C+0": 2, "?": 8}),                                           # non-canonical charge
 ]
 DPROBES = [["[C]", "[=C]", "[#C]", "[N+1]", "[=O]", "[Fe]", "[=Fe]"],
+           # a non-index symbol in index position, then a two-symbol index reaching 18 atoms back
+           ["[C]", "[C]", "[C]", "[Ring1]", "[F]", "."] + ["[C]"] * 20 + ["[Ring2]", "[Ring1]", "[Ring1]", "[O]", "[Branch2]", "[Foo2]"],
            ["[C]", "[NH4]", "[C]", "[OH3]", "[CH5]", "[C]"],          # hydrogen-rich atoms: in / out of the grammar depending on the table
            ["[C]", "[Branch1]", "[C]", "[O]", "[=N+1]", "[Ring1]", "[C]", "[C]"],
            ["[O]", "[=O]", "[=O]", ".", "[NH4+1]", "[Foo]"]]
@@ -201,7 +203,7 @@ def api_check(pid, tier, invariants, ops_note):
                          "non-trivial = history with a state-changing call followed by an observation")
     d = 4 if quick else 5
     customs = CUSTOMS if not quick else CUSTOMS[:5]
-    dpro = DPROBES[:3] if quick else DPROBES
+    dpro = DPROBES[:4] if quick else DPROBES
     epro = EPROBES[:1] if quick else EPROBES[:3]
     # design-level MC (VIEW hides nothing relevant: the history is replaced by its length)
     r, _ = run_api_tlc("mc", d + 1, customs, dpro, epro, invariants=API_INVARIANTS, properties=["RejectAtomic"])
